@@ -5,7 +5,7 @@ import re
 from . import e2e_gen as G, e2e_run as R, e2e_check as C, e2e_eval as EV
 from .common import WIRE, GOENV, run, scratch, rmtree, seed
 
-KINDS = ["none", "none", "missing", "dup", "unused", "neederr", "needcleanup", "badset", "aliasbad", "aliasgood"]
+KINDS = ["none", "none", "missing", "dup", "unused", "neederr", "needcleanup", "badset", "aliasbad", "aliasgood", "unexported", "unexported"]
 
 
 def expected_show(u, prog, s_idx):
@@ -84,13 +84,17 @@ def run_c19(rep, tier):
     rng = random.Random(seed() * 19 + 7)
     n = 40 if tier == "quick" else 400
     progs = EV.gen_batch(n, {"units": [1, 2]}, "c19")
+    # programs whose providers live in the library packages, reached through those packages' own sets: there an unexported
+    # provider function is a defect that has nothing to do with the injector's signature
+    libheavy = EV.gen_batch(max(8, n // 3), {"units": [1, 2], "p_lib_structs": 0.9, "p_func": 0.85, "min_structs": 5, "max_structs": 9}, "c19u")
+    progs += libheavy
     fails, dis = [], []
     stats = {"programs": 0, "check_ok": 0, "check_fail": 0, "sets_shown": 0}
     root = scratch("wvc19")
     try:
         plan = []
         for p in progs:
-            kind = rng.choice(KINDS)
+            kind = rng.choice(KINDS) if p not in libheavy else "unexported"
             p.c19 = kind
             if kind == "badset":
                 p.extra_decls.append("var ExtraBadSet = wire.NewSet(wire.Value(1), wire.Value(2))")
@@ -105,6 +109,10 @@ def run_c19(rep, tier):
                 note = G.plant(rng, p.units[0], kind)
                 if not note:
                     p.c19 = "none"
+            if kind not in ("neederr", "needcleanup") and rng.random() < 0.5:
+                # the full injector form (T, func(), error): every provider signature fits it, every other rejection still applies
+                for u in p.units:
+                    u.inj["cleanup"] = u.inj["err"] = True
         R.build_tools()
         extra = {"%s/al/al.go" % p.name: p.alias_pkg for p in progs if getattr(p, "alias_pkg", None)}
         R.write_module(root, progs, extra)
